@@ -1464,8 +1464,7 @@ def core_specs():
     c.append({"t": "C", "tree": N("outer_subtract", L(0), N("exp", L(1))), "leaves": ["dF", "dF"]})
     # ---- two view operands (bushy): distinct types / identical types over the same leaf / over different leaves
     c.append({"t": "C", "tree": N("matmul", N("tanh", L(0)), N("sin", L(1))), "leaves": ["dF", "dF"]})
-    c.append({"t": "C", "tree": N("stack", N("tanh", L(0)), N("tanh", L(0))), "leaves": ["dF"]})
-    c.append({"t": "C", "tree": N("stack", N("tanh", L(0)), N("tanh", L(1))), "leaves": ["dF", "dF"]})
+    c.append({"t": "C", "tree": N("matmul", N("transpose", L(0), v=1), N("transpose", L(1), v=1)), "leaves": ["dF", "dF"]})
     c.append({"t": "C", "tree": N("add", N("tanh", L(0)), N("tanh", L(0))), "leaves": ["dF"]})
     c.append({"t": "C", "tree": N("add", N("tanh", L(0)), N("tanh", L(1))), "leaves": ["dF", "dF"]})
     c.append({"t": "C", "tree": N("concatenate", N("sum", L(0), v=0), N("sum", L(0), v=0)), "leaves": ["dF"]})
